@@ -1238,8 +1238,15 @@ _lookup(LB* self,
         return NULL;
 
     cache = _getcache(self, provided, name);
-    if (cache == NULL)
+    if (cache == NULL) {
+        Py_DECREF(required);
         return NULL;
+    }
+    /* The cache is only borrowed from ``self``; anything that runs Python
+       code below (hashing a key, the uncached lookup itself) may call
+       ``changed()`` and drop it, so keep it alive until we are done. A
+       result stored after that lands in the detached dict. */
+    Py_INCREF(cache);
 
     if (PyTuple_GET_SIZE(required) == 1)
         key = PyTuple_GET_ITEM(required, 0);
@@ -1253,10 +1260,12 @@ _lookup(LB* self,
         result = PyObject_CallMethodObjArgs(
           OBJECT(self), str_uncached_lookup, required, provided, name, NULL);
         if (result == NULL) {
+            Py_DECREF(cache);
             Py_DECREF(required);
             return NULL;
         }
         status = PyDict_SetItem(cache, key, result);
+        Py_DECREF(cache);
         Py_DECREF(required);
         if (status < 0) {
             Py_DECREF(result);
@@ -1264,6 +1273,7 @@ _lookup(LB* self,
         }
     } else {
         Py_INCREF(result);
+        Py_DECREF(cache);
         Py_DECREF(required);
     }
 
@@ -1325,7 +1335,11 @@ _lookup1(LB* self,
     if (cache == NULL)
         return NULL;
 
+    /* See _lookup: hashing ``required`` may run Python code. */
+    Py_INCREF(cache);
     result = PyDict_GetItem(cache, required);
+    Py_XINCREF(result);
+    Py_DECREF(cache);
     if (result == NULL) {
         PyObject* tup;
 
@@ -1338,9 +1352,10 @@ _lookup1(LB* self,
         Py_DECREF(tup);
     } else {
         if (result == Py_None && default_ != NULL) {
+            Py_DECREF(result);
             result = default_;
+            Py_INCREF(result);
         }
-        Py_INCREF(result);
     }
 
     return result;
@@ -1502,8 +1517,12 @@ _lookupAll(LB* self, PyObject* required, PyObject* provided)
     ASSURE_DICT(self->_mcache);
 
     cache = _subcache(self->_mcache, provided);
-    if (cache == NULL)
+    if (cache == NULL) {
+        Py_DECREF(required);
         return NULL;
+    }
+    /* Keep the (borrowed) cache alive across the calls below. See _lookup. */
+    Py_INCREF(cache);
 
     result = PyDict_GetItem(cache, required);
     if (result == NULL) {
@@ -1512,10 +1531,12 @@ _lookupAll(LB* self, PyObject* required, PyObject* provided)
         result = PyObject_CallMethodObjArgs(
           OBJECT(self), str_uncached_lookupAll, required, provided, NULL);
         if (result == NULL) {
+            Py_DECREF(cache);
             Py_DECREF(required);
             return NULL;
         }
         status = PyDict_SetItem(cache, required, result);
+        Py_DECREF(cache);
         Py_DECREF(required);
         if (status < 0) {
             Py_DECREF(result);
@@ -1523,6 +1544,7 @@ _lookupAll(LB* self, PyObject* required, PyObject* provided)
         }
     } else {
         Py_INCREF(result);
+        Py_DECREF(cache);
         Py_DECREF(required);
     }
 
@@ -1570,8 +1592,12 @@ _subscriptions(LB* self, PyObject* required, PyObject* provided)
     ASSURE_DICT(self->_scache);
 
     cache = _subcache(self->_scache, provided);
-    if (cache == NULL)
+    if (cache == NULL) {
+        Py_DECREF(required);
         return NULL;
+    }
+    /* Keep the (borrowed) cache alive across the calls below. See _lookup. */
+    Py_INCREF(cache);
 
     result = PyDict_GetItem(cache, required);
     if (result == NULL) {
@@ -1580,10 +1606,12 @@ _subscriptions(LB* self, PyObject* required, PyObject* provided)
         result = PyObject_CallMethodObjArgs(
           OBJECT(self), str_uncached_subscriptions, required, provided, NULL);
         if (result == NULL) {
+            Py_DECREF(cache);
             Py_DECREF(required);
             return NULL;
         }
         status = PyDict_SetItem(cache, required, result);
+        Py_DECREF(cache);
         Py_DECREF(required);
         if (status < 0) {
             Py_DECREF(result);
@@ -1591,6 +1619,7 @@ _subscriptions(LB* self, PyObject* required, PyObject* provided)
         }
     } else {
         Py_INCREF(result);
+        Py_DECREF(cache);
         Py_DECREF(required);
     }
 
@@ -1769,13 +1798,16 @@ verify_changed(VB* self, PyObject* ignored)
     if (ro == NULL)
         return NULL;
 
-    self->_verify_generations = _generations_tuple(ro);
-    if (self->_verify_generations == NULL) {
+    /* Reading the generations may run Python code (which may re-enter
+       this method), so only store the results once we have them. */
+    t = _generations_tuple(ro);
+    if (t == NULL) {
         Py_DECREF(ro);
         return NULL;
     }
 
-    self->_verify_ro = ro;
+    Py_XSETREF(self->_verify_generations, t);
+    Py_XSETREF(self->_verify_ro, ro);
 
     Py_INCREF(Py_None);
     return Py_None;
@@ -1793,15 +1825,23 @@ _verify(VB* self)
     PyObject* changed_result;
 
     if (self->_verify_ro != NULL && self->_verify_generations != NULL) {
-        PyObject* generations;
+        PyObject *generations, *ro;
         int changed;
 
-        generations = _generations_tuple(self->_verify_ro);
+        /* Reading the generations may run Python code that calls
+           ``changed()`` and so replaces ``_verify_ro``: hold on to it. */
+        ro = self->_verify_ro;
+        Py_INCREF(ro);
+        generations = _generations_tuple(ro);
+        Py_DECREF(ro);
         if (generations == NULL)
             return -1;
 
-        changed = PyObject_RichCompareBool(
-          self->_verify_generations, generations, Py_NE);
+        if (self->_verify_generations == NULL)
+            changed = 1;
+        else
+            changed = PyObject_RichCompareBool(
+              self->_verify_generations, generations, Py_NE);
         Py_DECREF(generations);
         if (changed == -1)
             return -1;
